@@ -193,6 +193,7 @@ class AutoRestartTrick(Trick):
         self._is_process_stopping = False
         self._is_trick_stopping = False
         self._stopping_lock = threading.RLock()
+        self._restart_lock = threading.Lock()
 
     def start(self) -> None:
         if self.debounce_interval_seconds:
@@ -201,7 +202,10 @@ class AutoRestartTrick(Trick):
                 events_callback=lambda events: self._restart_process(),
             )
             self.event_debouncer.start()
-        self._start_process()
+        with self._restart_lock:
+            # An event handled before start() has already started the child.
+            if self.process is None:
+                self._start_process()
 
     def stop(self) -> None:
         # Ensure the body of the function is only run once.
@@ -210,10 +214,12 @@ class AutoRestartTrick(Trick):
                 return
             self._is_trick_stopping = True
 
-        process_watcher = self.process_watcher
         if self.event_debouncer is not None:
             self.event_debouncer.stop()
-        self._stop_process()
+        # Wait for a restart that is under way: it must not leave a child behind.
+        with self._restart_lock:
+            process_watcher = self.process_watcher
+            self._stop_process()
 
         # Don't leak threads: Wait for background threads to stop.
         if self.event_debouncer is not None:
@@ -275,11 +281,13 @@ class AutoRestartTrick(Trick):
             self._restart_process()
 
     def _restart_process(self) -> None:
-        if self._is_trick_stopping:
-            return
-        self._stop_process()
-        self._start_process()
-        self.restart_count += 1
+        # One restart at a time: an event and the child's own exit may ask for one concurrently.
+        with self._restart_lock:
+            if self._is_trick_stopping:
+                return
+            self._stop_process()
+            self._start_process()
+            self.restart_count += 1
 
 
 if platform.is_windows():
